@@ -312,9 +312,9 @@ def run(ctx):
         key = "conflict-free" if not i["raw"] else "resolve:" + i["resolve"].split(":")[0]
         stats[key] = stats.get(key, 0) + 1
     ctx.cov["outcomes"] = stats
-    for need in ("conflict-free", "resolve:clean", "resolve:malformed"):
-        if not stats.get(need):
-            ctx.machinery("no real execution with outcome %r" % need)
+    # anti-vacuity on what was EXPLORED (the model's classification), not on how the implementation behaved
+    if not any(not r["spec"]["kinds"][r["fl"]] for r in rows) or not any(r["spec"]["kinds"][r["fl"]] for r in rows):
+        ctx.machinery("the executed transforms do not include both conflict-free and conflicting ones")
     slim = [{"i": i, "fl": r["fl"], "spec": r["spec"],
              "impl": {k: v for k, v in r["impl"].items() if k not in ("sites", "resolver_notes", "finalize")}} for i, r in enumerate(rows)]
     for r in rows[:: max(1, len(rows) // 3)][:3]:
